@@ -294,6 +294,26 @@ class AttrTarget(object):
     pass
 
 
+import threading as _threading  # noqa: E402
+
+CUR = _threading.local()  # the backend whose computation runs on this thread
+DD_OWNER = {}  # id(task) -> name of the thread whose body ran it
+
+
+@_tools.deduplicate()
+@A.asynq()
+def DD_FN(key):
+    """One deduplicated function shared by every thread of the process."""
+    B = CUR.B
+    t = A.get_active_task()
+    DD_OWNER[id(t)] = _threading.current_thread().name
+    B.dd_runs += 1
+    B.ev("dd_body", key)
+    tok = "dd%d.i%d" % (key, B.dd_runs)
+    v = yield B.item(None, tok, key % B.spec["kinds"], "dd%d" % key)
+    return ("dd", key)
+
+
 class RealBackend(object):
     def __init__(self, spec, monitors=("C02", "C03", "C04", "C05", "C06", "C07", "C08")):
         self.spec = spec
@@ -330,6 +350,8 @@ class RealBackend(object):
         self.prio_vals = pr.get("vals", {})
         self.hash_vals = pr.get("hashes", {})
         self.nhash = 0
+        self.dd_tasks = []
+        self.dd_runs = 0
         self.carried = None
         self.probe_rate = spec.get("probe_rate", 0)
         self.probe_rng = None
@@ -370,16 +392,24 @@ class RealBackend(object):
 
     def setup(self):
         spec = self.spec
-        reset_world(reset_scheduler=spec.get("fresh_scheduler", True))
-        opts = _adebug.options
-        for k, v in spec.get("options", {}).items():
-            if k in DEFAULT_OPTIONS:
-                setattr(opts, k, bool(v))
-        if spec.get("max_stack"):
-            opts.MAX_TASK_STACK_SIZE = int(spec["max_stack"])
-        if spec.get("dump_interval") is not None:
-            opts.SCHEDULER_STATE_DUMP_INTERVAL = spec["dump_interval"]
-        simenv.clock.configure(spec.get("clock", {"seed": 0, "mode": "small"}))
+        self.threaded = bool(spec.get("threaded"))
+        if self.threaded:
+            # process-global state (options, clock, dedup table) is set up once by the caller;
+            # only this thread's own state is reset here
+            _sched.reset()
+            _batching._debug_batch_state.batches.clear()
+            A.profiler.reset()
+        else:
+            reset_world(reset_scheduler=spec.get("fresh_scheduler", True))
+            opts = _adebug.options
+            for k, v in spec.get("options", {}).items():
+                if k in DEFAULT_OPTIONS:
+                    setattr(opts, k, bool(v))
+            if spec.get("max_stack"):
+                opts.MAX_TASK_STACK_SIZE = int(spec["max_stack"])
+            if spec.get("dump_interval") is not None:
+                opts.SCHEDULER_STATE_DUMP_INTERVAL = spec["dump_interval"]
+            simenv.clock.configure(spec.get("clock", {"seed": 0, "mode": "small"}))
         self.scheduler = A.scheduler.get_scheduler()
         self.scheduler.on_before_batch_flush.subscribe(self._before_flush)
         self.scheduler.on_after_batch_flush.subscribe(self._after_flush)
@@ -628,6 +658,14 @@ class RealBackend(object):
 
     def result(self, val):
         A.result(val)
+
+    def dd(self, inst, key):
+        """A call of the process-wide @deduplicate() function (C16)."""
+        t = DD_FN.asynq(key)
+        mine = self.dd_tasks
+        if not any(t is x for x in mine):
+            mine.append(t)
+        return t
 
     # ---- body callbacks -----------------------------------------------------------------------
     def _enter_body(self, inst):
@@ -1161,13 +1199,15 @@ class RealBackend(object):
     def run(self):
         """Executes the program; returns ("V", value) or ("E", exception)."""
         self.setup()
+        CUR.B = self
         spec = self.spec
         root = Inst("r", spec["root"]["tmpl"], [])
         self.root = root
         self.insts["r"] = root
         conv = spec["root"].get("conv", "call")
         gc_was = gc.isenabled()
-        gc.disable()
+        if not self.threaded:
+            gc.disable()
         out = None
         try:
             try:
@@ -1200,7 +1240,7 @@ class RealBackend(object):
             self.post_run(out)
         finally:
             self.teardown()
-            if gc_was:
+            if gc_was and not self.threaded:
                 gc.enable()
         return out
 
@@ -1263,6 +1303,8 @@ class RealBackend(object):
                     if max(ci.done_at, ext[1]) < rec["at"] < ext[2]:
                         self.viol("C05", "flush-after-done", "flush inside the synchronous wait for %s after it completed" % ci.token)
                         break
+        if self.threaded:
+            return
         # drop the harness' own references to tasks, as user code leaving scope would, so that
         # abandoned (never completed) generators are finalised here, at a fixed trace point
         self.root_error = None
